@@ -11,6 +11,8 @@ From Coq Require Import String Ascii.
 From NV Require Import Base.Tac Base.PyVal Base.PyStr Base.PyStrFacts Model.IpText Model.FbSocket Model.AddrText Model.SrcPrelude
   Model.SrcPreludeStr Model.SrcPreludeText Gen.pysrc_gen Gen.pysrc_strategy_gen Gen.pysrc_ipv4_gen Gen.pysrc_ipv6_gen
   Proofs.GenOk_Src_C15 Proofs.GenOk_Src_C15_ip Proofs.GenOk_Src_C01.
+From NV Require Proofs.C01.
+From NV Require Import Proofs.C01_V6.
 From NV Require Model.Codec Model.NetText.
 Import ListNotations.
 Close Scope string_scope.
@@ -251,6 +253,136 @@ Proof.
   - pose proof (okpy_pton6 be addr). destruct (inet_pton6 be addr); [exact I|assumption].
 Qed.
 
+(* ---- int_to_str / int_to_arpa ---- *)
+(* the two copies of strategy.int_to_words (AddrText: nat count; Codec: Z count) *)
+Lemma int_to_words_loop_codec n : forall v mw ws words,
+  AddrText.int_to_words_loop n v mw ws words = words ++ Codec.words_loop n v mw ws.
+Proof.
+  induction n as [|k IH]; intros v mw ws words; cbn [AddrText.int_to_words_loop Codec.words_loop].
+  - rewrite app_nil_r. reflexivity.
+  - rewrite IH, <- app_assoc. reflexivity.
+Qed.
+Lemma int_to_words_codec v ws (n : nat) : AddrText.int_to_words v ws n = Codec.int_to_words v ws (Z.of_nat n).
+Proof. unfold AddrText.int_to_words, Codec.int_to_words. rewrite Nat2Z.id, int_to_words_loop_codec. reflexivity. Qed.
+
+(* '>4I' of a 32-bit word = '>2H' '>2H' of its halves *)
+Lemma be_bytes_4 a : 0 <= a <= 4294967295 -> Codec.be_bytes 4 a = py_word_bytes (a / 65536) ++ py_word_bytes (a mod 65536).
+Proof.
+  intros H. cbn [Codec.be_bytes app]. unfold py_word_bytes. cbn [app].
+  f_equal; [lia_dm|]. f_equal; [lia_dm|]. f_equal; [lia_dm|]. f_equal. lia_dm.
+Qed.
+
+Lemma ipv6_int_to_packed_words v : Codec.ipv6_int_to_packed v = omap py_bytes_of_words (AddrText.int_to_packed v).
+Proof.
+  unfold Codec.ipv6_int_to_packed, AddrText.int_to_packed. rewrite (int_to_words_codec v 32 4). change (Z.of_nat 4) with 4.
+  unfold Codec.int_to_words. destruct (negb _); [reflexivity|]. cbn [bind]. change (Z.to_nat 4) with 4%nat.
+  cbn [Codec.words_loop rev app]. set (mw := 2 ^ 32 - 1).
+  set (a := Z.land (Z.shiftr (Z.shiftr (Z.shiftr v 32) 32) 32) mw). set (b := Z.land (Z.shiftr (Z.shiftr v 32) 32) mw).
+  set (c := Z.land (Z.shiftr v 32) mw). set (d := Z.land v mw). clearbody a b c d.
+  unfold pack_4I. cbn [forallb Codec.struct_pack]. change (256 ^ Z.of_nat 4) with 4294967296.
+  assert (R : forall x, ((0 <=? x) && (x <? 4294967296)) = ((0 <=? x) && (x <=? 4294967295))) by (intros x; lia).
+  rewrite !R. clear R.
+  destruct ((0 <=? a) && (a <=? 4294967295)) eqn:Ea; [|reflexivity].
+  destruct ((0 <=? b) && (b <=? 4294967295)) eqn:Eb; [|reflexivity].
+  destruct ((0 <=? c) && (c <=? 4294967295)) eqn:Ec; [|reflexivity].
+  destruct ((0 <=? d) && (d <=? 4294967295)) eqn:Ed; [|reflexivity].
+  cbn [bind andb omap py_bytes_of_words flat_map]. rewrite !be_bytes_4 by lia. rewrite !app_nil_r, <- !app_assoc. reflexivity.
+Qed.
+
+Lemma words_of_bytes_of_words ws : py_words_of_bytes (py_bytes_of_words ws) = ws.
+Proof.
+  induction ws as [|w r IH]; [reflexivity|]. cbn [py_bytes_of_words flat_map py_word_bytes app py_words_of_bytes].
+  change (flat_map py_word_bytes r) with (py_bytes_of_words r). rewrite IH. f_equal. lia_dm.
+Qed.
+
+Lemma bytes_of_words_length ws : List.length (py_bytes_of_words ws) = (2 * List.length ws)%nat.
+Proof.
+  induction ws as [|w r IH]; [reflexivity|]. cbn [py_bytes_of_words flat_map py_word_bytes app List.length].
+  change (flat_map py_word_bytes r) with (py_bytes_of_words r). rewrite IH. lia.
+Qed.
+
+(* _struct.unpack('>8H', packed) of the 16 bytes of 8 words: the words *)
+Lemma unpack_8H_words p : List.length p = 8%nat ->
+  py_struct_unpack [2%nat; 2%nat; 2%nat; 2%nat; 2%nat; 2%nat; 2%nat; 2%nat] (py_bytes_of_words p) = Ok p.
+Proof.
+  intros L. destruct p as [|a [|b [|c [|d [|e [|f [|g [|h [|x r]]]]]]]]]; try discriminate.
+  unfold py_struct_unpack, Codec.struct_unpack. cbn [py_bytes_of_words flat_map py_word_bytes app List.length fold_right Nat.add Nat.eqb
+    Codec.split_fields firstn skipn Codec.from_be].
+  repeat match goal with |- context [(0 * 256 + ?x / 256) * 256 + ?x mod 256] =>
+    replace ((0 * 256 + x / 256) * 256 + x mod 256) with x by lia_dm end.
+  reflexivity.
+Qed.
+
+Definition dcls (d : dialect) : string * bool := (if pad4 d then "%.4x"%string else "%x"%string, compact d).
+
+Lemma src_dialects_ok :
+  src_ipv6_ipv6_compact = dcls ipv6_compact /\ src_ipv6_ipv6_verbose = dcls ipv6_verbose.
+Proof. split; reflexivity. Qed.
+
+Lemma format_words_ok d p : Forall word p ->
+  py_map_o (fun w => py_format1 (fst (dcls d)) w) p = Ok (map (fun w => if pad4 d then fmt_x_pad 4 w else fmt_x w) p).
+Proof.
+  intros F. induction F as [|w r Hw F IH]; [reflexivity|]. cbn [py_map_o map]. rewrite IH. unfold dcls. cbn [fst].
+  destruct (pad4 d); cbn [py_format1 String.eqb Ascii.eqb Bool.eqb andb bind]; [|reflexivity].
+  unfold py_fmt_x4. unfold word in Hw. replace (w <? 0) with false by lia. reflexivity.
+Qed.
+
+Lemma okpy_fb_ntop6 ws : okpy (Fb.inet_ntop6 ws).
+Proof.
+  unfold Fb.inet_ntop6. destruct (negb _); [reflexivity|]. cbv zeta. apply okpy_bind; [|intros t; exact I].
+  repeat first
+    [ exact I | reflexivity | apply okpy_pack_H | apply okpy_inet_ntoa
+    | apply okpy_bind; [|intros ?]
+    | match goal with |- okpy (if ?c then _ else _) => destruct c end
+    | match goal with |- okpy (match ?x with _ => _ end) => destruct x end ].
+Qed.
+Lemma okpy_ntop6 be ws : okpy (inet_ntop6 be ws).
+Proof. destruct be; [exact I|apply okpy_fb_ntop6]. Qed.
+
+Lemma okpy_int_to_packed v : okpy (AddrText.int_to_packed v).
+Proof. unfold AddrText.int_to_packed, AddrText.int_to_words, pack_4I. okpy_tac. Qed.
+
+Lemma src_ipv6_int_to_str_ok be v d : src_ipv6_int_to_str be v (option_map dcls d) = v6_int_to_str be v d.
+Proof.
+  unfold src_ipv6_int_to_str, v6_int_to_str. cbv zeta.
+  replace (py_opt_default (option_map dcls d) src_ipv6_ipv6_compact) with (dcls (match d with Some d => d | None => ipv6_compact end))
+    by (destruct d; reflexivity).
+  set (dd := match d with Some d0 => d0 | None => ipv6_compact end).
+  match goal with |- bind (py_except_all ValueError ?B) _ = match ?M with _ => _ end => assert (E : B = M) end.
+  { rewrite src_ipv6_int_to_packed_ok, ipv6_int_to_packed_words.
+    destruct (AddrText.int_to_packed v) as [p|e] eqn:P; [|reflexivity]. cbn [omap bind].
+    assert (W : Forall word p /\ List.length p = 8%nat).
+    { unfold AddrText.int_to_packed in P. destruct (AddrText.int_to_words v 32 4) as [ws32|]; [|discriminate]. cbn [bind] in P.
+      exact (Proofs.C01.pack_4I_words _ _ P). }
+    destruct W as (F & L). unfold dcls at 1. cbn [snd]. destruct (compact dd).
+    - unfold py_inet_ntop6. rewrite bytes_of_words_length, L, words_of_bytes_of_words. cbn [Nat.mul Nat.add Nat.eqb].
+      destruct (inet_ntop6 be p); reflexivity.
+    - rewrite (unpack_8H_words p L). cbn [bind]. rewrite (format_words_ok dd p F). reflexivity. }
+  rewrite E, except_all_okpy.
+  - destruct (bind (AddrText.int_to_packed v) _); reflexivity.
+  - apply okpy_bind; [apply okpy_int_to_packed|]. intros p. destruct (compact dd); [apply okpy_ntop6|exact I].
+Qed.
+
+(* int_to_arpa goes through int_to_str(int_val, ipv6_verbose); its model is Codec.ipv6_int_to_arpa (C15) *)
+Lemma v6_int_to_str_verbose_codec be v :
+  v6_int_to_str be v (Some ipv6_verbose) = Codec.ipv6_int_to_str_verbose row6 v.
+Proof.
+  unfold v6_int_to_str, Codec.ipv6_int_to_str_verbose, Codec.on_exception. rewrite ipv6_int_to_packed_words.
+  destruct (AddrText.int_to_packed v) as [p|e] eqn:P; [|reflexivity]. cbn [omap bind compact ipv6_verbose pad4].
+  assert (W : Forall word p /\ List.length p = 8%nat).
+  { unfold AddrText.int_to_packed in P. destruct (AddrText.int_to_words v 32 4) as [ws32|]; [|discriminate]. cbn [bind] in P.
+    exact (Proofs.C01.pack_4I_words _ _ P). }
+  destruct W as (F & L). pose proof (unpack_8H_words p L) as U. unfold py_struct_unpack in U. rewrite U. reflexivity.
+Qed.
+
+Lemma src_ipv6_int_to_arpa_ok be v : src_ipv6_int_to_arpa be v = Codec.ipv6_int_to_arpa row6 v.
+Proof.
+  unfold src_ipv6_int_to_arpa, Codec.ipv6_int_to_arpa.
+  change (Some src_ipv6_ipv6_verbose) with (option_map dcls (Some ipv6_verbose)).
+  rewrite src_ipv6_int_to_str_ok, v6_int_to_str_verbose_codec.
+  destruct (Codec.ipv6_int_to_str_verbose row6 v) as [addr|e]; reflexivity.
+Qed.
+
 (* everything the C01 source tie states about the text functions of strategy/ipv4.py and ipv6.py (Props/C01_src.v), part 1 *)
 Lemma C01_tie_text1_ok :
   (forall be addr flags, src_ipv4_valid_str be addr flags = valid_str be 4 addr flags) /\
@@ -258,9 +390,13 @@ Lemma C01_tie_text1_ok :
   (forall be v d, src_ipv4_int_to_str v tt = int_to_str be 4 v d) /\
   (forall s, src_ipv4_expand_partial_address s = NetText.expand_partial_address s) /\
   (forall be addr flags, src_ipv6_valid_str be addr flags = valid_str be 6 addr flags) /\
-  (forall be addr flags, src_ipv6_str_to_int be addr flags = str_to_int be 6 addr flags).
+  (forall be addr flags, src_ipv6_str_to_int be addr flags = str_to_int be 6 addr flags) /\
+  (src_ipv6_ipv6_compact = dcls ipv6_compact /\ src_ipv6_ipv6_verbose = dcls ipv6_verbose) /\
+  (forall be v d, src_ipv6_int_to_str be v (option_map dcls d) = int_to_str be 6 v d) /\
+  (forall be v, src_ipv6_int_to_arpa be v = Codec.ip_reverse_dns "ipv6"%string row6 v).
 Proof.
   split; [exact src_ipv4_valid_str_ok|]. split; [exact src_ipv4_str_to_int_ok|].
   split; [intros be v d; apply src_ipv4_int_to_str_ok|]. split; [exact src_ipv4_expand_partial_address_ok|].
-  split; [exact src_ipv6_valid_str_ok|exact src_ipv6_str_to_int_ok].
+  split; [exact src_ipv6_valid_str_ok|]. split; [exact src_ipv6_str_to_int_ok|]. split; [exact src_dialects_ok|].
+  split; [exact src_ipv6_int_to_str_ok|exact src_ipv6_int_to_arpa_ok].
 Qed.
